@@ -160,7 +160,7 @@ func c19(r *core.Run) {
 	}
 	defer func() { afterBuild = nil }()
 
-	runDrivers(r, thriftrw, "plug", uint64(r.Pick(80, 2000)), 40, nil, nil, []driverMon{
+	runDrivers(r, thriftrw, "plug", uint64(r.Pick(200, 2000)), 40, nil, nil, []driverMon{
 		{name: "c19", cases: func(t, c, f int) uint64 { return uint64(f) * per }},
 	})
 	r.Set("distinct_type_description_shapes", int64(len(shapes)))
